@@ -65,6 +65,7 @@ class Ctx:
         self.stats = {}
         self.obligations = 0
         self.discharged = 0
+        self.axioms = {}            # theorem -> axioms it depends on (from #print axioms on this run)
         self.known, self.fixed = core.load_known()
         self.known = [k for k in self.known if k["property"] == prop.id]
         self.fixed = [k for k in self.fixed if k["property"] == prop.id]
@@ -176,6 +177,7 @@ def stage_build(ctx, prop):
                 for t, (st, detail) in res.items():
                     if st == "ok":
                         ctx.discharged += 1
+                        ctx.axioms[t] = detail
                     elif st == "axioms":
                         ctx.proof_breaks.append("theorem %s depends on disallowed axioms %s" % (t, detail))
                     else:
@@ -259,6 +261,7 @@ def finish(ctx, prop):
                            % (prop.lean_module, " && lake env leanchecker " + prop.lean_module if ctx.tier == "thorough" else ""),
             "trusted_base": core.TRUSTED_BASE_COMMON + list(prop.trusted_base),
             "theorems": list(prop.theorems),
+            "axioms_by_theorem": ctx.axioms,
             "evaluations": ctx.evaluations, "distinct_nontrivial": len(ctx.distinct),
             "rule": prop.rule, "samples": ctx.samples or [{"note": "no correspondence cases in this run"}],
             "traces_validated_against_impl": ctx.evaluations,
